@@ -158,6 +158,13 @@ class Yield:
     var: str
 
 
+@dataclass
+class Same:
+    """The same node under another name (a collected node handed to a later loop)."""
+    var: str
+    body: list
+
+
 # ----------------------------------------------------------------------------- extraction
 
 
@@ -169,9 +176,10 @@ class _St:
         self.nodes: dict[str, tuple] = {cur: ("param",)}
         self.alias: dict[str, str] = {}
         self.tagalias: dict[str, str] = {}
-        self.lists: dict[str, list] = {}  # name -> [(src, axis, pred, tuple_index)]
+        self.lists: dict[str, dict] = {}  # name -> {'base': chain length where the list was created, 'entries': [(relative chain, final)]}
         self.cenv = dict(cenv)
         self.loopspec: dict[str, tuple] = {}  # loop var -> (src, axis, pred)
+        self.chain: list = []  # ('loop', var, spec) / ('guard', var, pred, polarity) from the function top to here
 
     def node(self, e: ast.AST) -> str | None:
         if isinstance(e, ast.Name):
@@ -180,8 +188,18 @@ class _St:
         return None
 
 
+def _dict_key(e: ast.AST):
+    """(base expr, key) for  X.get("k"[, default])  /  X["k"]  else None."""
+    if isinstance(e, ast.Call) and isinstance(e.func, ast.Attribute) and e.func.attr == "get" and e.args and isinstance(e.args[0], ast.Constant) and isinstance(e.args[0].value, str):
+        return e.func.value, e.args[0].value
+    if isinstance(e, ast.Subscript) and isinstance(e.slice, ast.Constant) and isinstance(e.slice.value, str):
+        return e.value, e.slice.value
+    return None
+
+
 class Extractor:
-    def __init__(self, ctx, opaque_subtree: set[str] = frozenset(), mark_tags: dict | None = None, ignore_funcs: set[str] = frozenset()):
+    def __init__(self, ctx, opaque_subtree: set[str] = frozenset(), mark_tags: dict | None = None, ignore_funcs: set[str] = frozenset(), dict_nodes: bool = False):
+        self.dict_nodes = dict_nodes  # nodes are dicts {"tag", "children", "text", "tail"} (the HTML tree builder's model)
         self.ctx = ctx
         self.p = ctx.p
         self.cache: dict = {}
@@ -258,6 +276,8 @@ class Extractor:
                     a.sinks = a.sinks | sinks
             if isinstance(a, (Loop, GenLoop)) and (a.first if isinstance(a, Loop) else False):
                 Extractor._tag_dest(a.body, name, sinks)
+            elif isinstance(a, Same):
+                Extractor._tag_dest(a.body, name, sinks)
             elif isinstance(a, Guard):
                 Extractor._tag_dest(a.body, name, sinks)
                 Extractor._tag_dest(a.orelse, name, sinks)
@@ -302,7 +322,7 @@ class Extractor:
             for a in lst:
                 if isinstance(a, (Emit, Call, GenLoop, Loop)) and a.dest:
                     a.sinks = a.sinks | frozenset(closure(a.dest))
-                if isinstance(a, (Loop, GenLoop)):
+                if isinstance(a, (Loop, GenLoop, Same)):
                     visit(a.body)
                 elif isinstance(a, Guard):
                     visit(a.body)
@@ -328,6 +348,10 @@ class Extractor:
             return st.node(e.value)
         if isinstance(e, ast.Name) and e.id in st.tagalias:
             return st.tagalias[e.id]
+        if self.dict_nodes:
+            dk = _dict_key(e)
+            if dk and dk[1] == "tag":
+                return st.node(dk[0])
         return None
 
     def tag_test(self, fi, t: ast.AST, st: _St):
@@ -425,8 +449,12 @@ class Extractor:
         while isinstance(it, ast.Call) and isinstance(it.func, ast.Name) and it.func.id in ("list", "sorted", "reversed", "tuple", "iter") and it.args:
             it = it.args[0]
         n = st.node(it)
-        if n is not None:
+        if n is not None and not self.dict_nodes:
             return [("axis", n, "child", ANY)]
+        if self.dict_nodes:
+            dk = _dict_key(it)
+            if dk and dk[1] == "children" and st.node(dk[0]) is not None:
+                return [("axis", st.node(dk[0]), "child", ANY)]
         if isinstance(it, ast.Name) and it.id in self._lists_chain(st):
             return [("list", it.id)]
         if isinstance(it, ast.Call) and isinstance(it.func, ast.Attribute):
@@ -500,6 +528,13 @@ class Extractor:
             if n is not None:
                 if not test:
                     acts += self.wrap(fi, st, n, [Emit(n, e.attr, site=f"{fi.qual}: {norm(e)}")])
+                return acts
+        if self.dict_nodes:
+            dk = _dict_key(e)
+            if dk and dk[1] in ("text", "tail", "tag", "children", "attrs") and st.node(dk[0]) is not None:
+                n = st.node(dk[0])
+                if dk[1] in ("text", "tail") and not test:
+                    acts += self.wrap(fi, st, n, [Emit(n, dk[1], site=f"{fi.qual}: {norm(e)}")])
                 return acts
         if isinstance(e, (ast.ListComp, ast.SetComp, ast.GeneratorExp, ast.DictComp)):
             return self.comp(fi, e, 0, st)
@@ -615,8 +650,8 @@ class Extractor:
         out: list = []
         for sp in spec:
             if sp[0] == "list":
-                for entry in self._lists_owner(st, sp[1]).lists[sp[1]]:
-                    out += self.loops(fi, [entry], var, st, body_fn, site)
+                for (rel, final) in self._lists_owner(st, sp[1]).lists[sp[1]]["entries"]:
+                    out += self._replay(fi, rel, final, var, st, body_fn, site)
                 continue
             if sp[0] == "path":
                 _, src, preds = sp
@@ -644,11 +679,35 @@ class Extractor:
                 c: Call = sp[1]
                 st2 = self._enter(st, var, ("gen", c))
                 body = body_fn(st2)
-                mark = [Guard(var, Pred("in", frozenset([t])), [Mark(var, mn)], []) for t, mn in self.mark_tags.items()]
                 self.sites.append(f"{site} [generator {c.fi.qual}]")
+                if len(body) == 1 and isinstance(body[0], Yield) and body[0].var == var:
+                    # `for x in helper(n): yield x` is `yield from helper(n)`: no new continuation (keeps recursion finite-state)
+                    c2 = Call(c.fi, c.param, c.var, c.cenv, propagate_yield=True, site=c.site)
+                    out += self.wrap(fi, st, c.var, [c2])
+                    continue
+                mark = [Guard(var, Pred("in", frozenset([t])), [Mark(var, mn)], []) for t, mn in self.mark_tags.items()]
                 out += self.wrap(fi, st, c.var, [GenLoop(var, c, mark + body, site=site)])
                 continue
         return out
+
+    def _replay(self, fi, rel: list, final, var: str, st: _St, body_fn, site: str) -> list:
+        """Re-create the loops / guards under which a node was collected into a list, then run the consumer's body on it."""
+        def build(i: int, st_cur: _St) -> list:
+            if i == len(rel):
+                if final[0] == "spec":
+                    return self.loops(fi, [final[1]], var, st_cur, body_fn, site)
+                v = final[1]
+                st2 = self._enter(st_cur, var, None)
+                st2.chain = list(st_cur.chain)
+                return self.wrap(fi, st_cur, v, [Same(var, body_fn(st2))])
+            el = rel[i]
+            if el[0] == "loop":
+                _, v, spec = el
+                return self.loops(fi, [spec], v, st_cur, lambda st2: build(i + 1, st2), site)
+            _, v, pred, pol = el
+            inner = build(i + 1, st_cur)
+            return self.wrap(fi, st_cur, v, [Guard(v, pred, inner if pol else [], [] if pol else inner)])
+        return build(0, st)
 
     @staticmethod
     def _enter(st: _St, var: str, spec) -> _St:
@@ -659,6 +718,7 @@ class Extractor:
         st2.loopspec = dict(st.loopspec)
         if spec is not None:
             st2.loopspec[var] = spec
+        st2.chain = list(st.chain) + [("loop", var, spec)]
         st2.outer = st
         return st2
 
@@ -676,12 +736,21 @@ class Extractor:
                 tt = self.tag_test(fi, s.test, st)
                 if tt is not None:
                     v, pr = tt
+                    base_chain = st.chain
+                    st.chain = base_chain + [("guard", v, pr, True)]
                     b, bt = self.seq(fi, s.body, st)
+                    st.chain = base_chain + [("guard", v, pr, False)]
                     e, et = self.seq(fi, s.orelse, st)
+                    st.chain = base_chain
                     if not bt and not et:
                         acts += self.wrap(fi, st, v, [Guard(v, pr, b, e)])
                         continue
+                    if bt and not et:
+                        st.chain = base_chain + [("guard", v, pr, False)]
+                    elif et and not bt:
+                        st.chain = base_chain + [("guard", v, pr, True)]
                     rest, rt = self.seq(fi, stmts[idx + 1:], st)
+                    st.chain = base_chain
                     body = b if bt else b + rest
                     orelse = e if et else e + rest
                     acts += self.wrap(fi, st, v, [Guard(v, pr, body, orelse)])
@@ -842,6 +911,11 @@ class Extractor:
         if isinstance(val, ast.Attribute) and val.attr == "tag" and st.node(val.value) is not None:
             st.tagalias[name] = st.node(val.value)
             return True
+        if self.dict_nodes:
+            dk = _dict_key(val)
+            if dk and dk[1] == "tag" and st.node(dk[0]) is not None:
+                st.tagalias[name] = st.node(dk[0])
+                return True
         if isinstance(val, ast.Call) and isinstance(val.func, ast.Attribute) and val.func.attr == "find" and st.node(val.func.value) is not None and val.args:
             src = st.node(val.func.value)
             v = self.fold(fi, val.args[0], st)
@@ -868,8 +942,7 @@ class Extractor:
         # list of nodes
         spec = None
         if isinstance(val, (ast.List,)) and not val.elts:
-            st.lists.setdefault(name, [])
-            st.lists[name] = []
+            st.lists[name] = {"base": len(st.chain), "entries": []}
             return True
         if isinstance(val, ast.Call):
             try:
@@ -879,7 +952,7 @@ class Extractor:
             if spec and all(sp[0] in ("axis", "path", "gen") for sp in spec) and isinstance(val.func, (ast.Attribute, ast.Name)):
                 fname = val.func.attr if isinstance(val.func, ast.Attribute) else val.func.id
                 if fname in ("findall", "list", "sorted", "iter", "iterfind", "reversed", "tuple"):
-                    st.lists[name] = list(spec)
+                    st.lists[name] = {"base": len(st.chain), "entries": [([], ("spec", sp)) for sp in spec]}
                     return True
         return False
 
@@ -887,13 +960,16 @@ class Extractor:
         owner = self._lists_owner(st, lname)
         if owner is None:
             return False
+        info = owner.lists[lname]
+        rel = list(st.chain[info["base"]:])
         if how == "extend":
             spec = self.iter_spec(fi, arg, st)
-            if spec and all(sp[0] in ("axis", "path") or (sp[0] == "gen" and sp[1].fi.is_generator()) for sp in spec):
-                owner.lists[lname].extend(spec)
+            if spec and all(sp[0] in ("axis", "path") or (sp[0] == "gen" and (sp[1].fi.is_generator() or self.returns_nodes(sp[1].fi))) for sp in spec):
+                for sp in spec:
+                    info["entries"].append((rel, ("spec", sp)))
                 return True
             return False
-        # append(node) / append((.., node, ..)) of the enclosing loop's variable
+        # append(node) / append((.., node, ..))
         cand = arg.elts if isinstance(arg, ast.Tuple) else [arg]
         nodes_in = [c for c in cand if st.node(c) is not None]
         if not nodes_in:
@@ -901,10 +977,16 @@ class Extractor:
         if len(nodes_in) != 1:
             raise AnalysisError(f"treewalk: {fi.key}: several nodes appended at once to {lname}")
         var = st.node(nodes_in[0])
-        if var not in st.loopspec:
-            return False
-        owner.lists[lname].append(st.loopspec[var])
+        info["entries"].append((rel, ("var", var)))
         return True
+
+    @staticmethod
+    def returns_nodes(fi: FuncInfo) -> bool:
+        """A helper that collects nodes into a local list and returns it (the caller iterates the result)."""
+        from .loader import walk_own
+        lists = {n.targets[0].id for n in walk_own(fi.node) if isinstance(n, ast.Assign) and len(n.targets) == 1 and isinstance(n.targets[0], ast.Name) and isinstance(n.value, ast.List) and not n.value.elts}
+        rets = [n for n in walk_own(fi.node) if isinstance(n, ast.Return) and isinstance(n.value, ast.Name) and n.value.id in lists]
+        return bool(rets)
 
     def _lists_chain(self, st):
         names = set()
@@ -1014,6 +1096,8 @@ class Product:
                 body = self.ex.function(a.call.fi, a.call.param, a.call.cenv)
                 ky2 = (self.rid(a.body), a.var, ky)
                 self.expand(body, kind, a.call.param, ky2, mult, out, depth + 1)
+            elif isinstance(a, Same):
+                self.expand(a.body, kind, a.var, ky, mult, out, depth + 1)
             elif isinstance(a, Yield):
                 if ky is not None:
                     self.expand(self.reg[ky[0]], kind, ky[1], ky[2], mult, out, depth + 1)
